@@ -7,6 +7,8 @@
 //	c20-replacement  the same over {a, b, ' ', U+FFFD} (a valid rune that the decoder
 //	                 also uses as its error value)
 //	c20-long         hand-built long texts (> 3 x the default fragment size)
+//	c20-wide         texts of one repeated 2-, 3- or 4-byte rune, longer than every
+//	                 fragment size, with the match at every rune index 0..70 and at the end
 //	c20-adversarial  location sets built by hand (out of range, inverted, mid-rune,
 //	                 unsorted, overlapping) passed directly to the highlighter: no panic
 package main
@@ -17,8 +19,6 @@ import (
 	"html"
 	"io"
 	"log"
-	"os"
-	"runtime/pprof"
 	"sort"
 	"strings"
 	"time"
@@ -693,7 +693,7 @@ func shortText(text []byte) string {
 }
 
 // searchAndCheck runs every query over the indexed texts and checks every hit.
-func searchAndCheck(texts []string, sizesOf func(text string) []int, fs *failures, res *explore.Result) {
+func searchAndCheck(texts []string, sizesOf func(text string) []int, fs *failures, res *explore.Result, only ...string) {
 	r, err := buildIndex(texts)
 	if err != nil {
 		res.Failure, res.Key = "harness: "+err.Error(), "harness"
@@ -702,6 +702,17 @@ func searchAndCheck(texts []string, sizesOf func(text string) []int, fs *failure
 	defer r.Close()
 	for _, q := range queries {
 		q := q
+		if len(only) > 0 {
+			use := false
+			for _, n := range only {
+				if n == q.name {
+					use = true
+				}
+			}
+			if !use {
+				continue
+			}
+		}
 		it, err := r.Search(context.Background(), bluge.NewTopNSearch(len(texts)+1, q.mk()).IncludeLocations())
 		if err != nil {
 			fs.add(rankSpecific, "search-error:"+q.name, func() string { return fmt.Sprintf("query %s: %v", q.name, err) })
@@ -935,15 +946,28 @@ func wideTexts(f wideFiller) []string {
 
 func wideSizes(string) []int { return []int{5, 20, 30, 100, 200, 0} }
 
-func wideTotal(string) int64 { return int64(len(wideFillers)) }
+const wideBlock = 21
+
+var wideBlocks = (len(wideTexts(wideFillers[0])) + wideBlock - 1) / wideBlock
+
+func wideTotal(string) int64 { return int64(len(wideFillers) * wideBlocks) }
+
+// the queries that find the single-letter match (and the one without locations);
+// the filler itself is not searched for: hundreds of locations per text are the
+// subject of c20-long, not of this family
+var wideQueries = []string{"term a", `match "a b"`, "match-all (no locations)"}
 
 func wideEval(idx int64, param string) (*explore.Result, *failures) {
 	res := &explore.Result{Counts: map[string]int64{}, Outcome: fmt.Sprint(idx)}
 	var fs failures
-	texts := wideTexts(wideFillers[idx])
-	searchAndCheck(texts, wideSizes, &fs, res)
-	if idx == 1 {
-		res.Sample = map[string]interface{}{"filler": wideFillers[idx].name, "texts": len(texts), "runes_each": utf8.RuneCountInString(texts[0]), "highlighter_calls": res.Evals}
+	f := wideFillers[idx/int64(wideBlocks)]
+	texts := wideTexts(f)
+	lo := int(idx%int64(wideBlocks)) * wideBlock
+	hi := min(lo+wideBlock, len(texts))
+	texts = texts[lo:hi]
+	searchAndCheck(texts, wideSizes, &fs, res, wideQueries...)
+	if idx%int64(wideBlocks) == 0 {
+		res.Sample = map[string]interface{}{"filler": f.name, "texts": len(texts), "runes_each": utf8.RuneCountInString(texts[0]), "highlighter_calls": res.Evals}
 	}
 	return res, &fs
 }
@@ -1126,16 +1150,6 @@ func advEval(idx int64, param string) (*explore.Result, *failures) {
 
 func main() {
 	log.SetOutput(io.Discard)
-	if os.Getenv("C20_BENCH") != "" {
-		f, _ := os.Create("/dev/shm/c20.prof")
-		_ = pprof.StartCPUProfile(f)
-		t0 := time.Now()
-		r, _ := wideEval(1, "quick")
-		pprof.StopCPUProfile()
-		f.Close()
-		fmt.Println(time.Since(t0), r.Evals)
-		return
-	}
 	withAspects("c20-short", shortTotal(alphaShort), shortEval(alphaShort))
 	withAspects("c20-replacement", shortTotal(alphaRepl), shortEval(alphaRepl))
 	withAspects("c20-long", longTotal, longEval)
@@ -1146,7 +1160,7 @@ func main() {
 	if v := c.IsReplay(); v != nil {
 		c.RunReplay(v)
 	}
-	c.Rule = "short: every text of <= 5 (thorough: 7) runes over {a, b, space, e-acute (2 bytes), U+4E16 (3 bytes)}, indexed in blocks of 125 documents as a stored, highlightable field with the standard analyzer, as a keyword field and with the CJK analyzer (overlapping bigrams); 16 queries (term a/b/e-acute/U+4E16, phrase \"a b\", match \"a b\", match of four terms, match-all = no locations for the field, keyword prefix queries = one location spanning the whole text, two CJK bigram matches) through TopNSearch.IncludeLocations; every hit x fragment sizes 1..runes+1 and the bundled default x 1..3 fragments x HTML and ANSI, plus BestFragment. replacement: the same over {a, b, space, U+FFFD} up to 5 (6) runes. long: 25 hand-built texts (> 3 x 200 runes, matches at both ends, multi-byte and 4-byte fillers, HTML special characters, U+FFFD, dense matches, runs of overlapping bigrams) x sizes {1,2,3,5,8,13,50,199,200,201,n-1,n,n+1,default}. wide: 6 fillers (a 2-byte, two 3-byte and a 4-byte non-letter rune repeated, and the 2- and 3-byte ones alternating with a space) x texts of about 260 runes with the match a at every rune index 0..70, at 130, 199, 200 and at the end, alone and with a second match at the end x sizes {5,20,30,100,200,default} x HTML/ANSI x BestFragment and BestFragments(1..3). adversarial: texts {empty, e-acute, a+e-acute+U+4E16+b} (thorough: also a and U+4E16+a+space+e-acute) x every sequence of <= 3 locations with start,end in {-1,0,1,inside a rune,len-1,len,len+1} (inverted ones included), all under one term in the given order and, when the starts differ, one term each x sizes {1,2,runes+1,default} x HTML/ANSI x 1 and 3 fragments. Every block is presented once per pinned failure class and once for all other failures (evaluated once). non-trivial = the best fragment carries a mark (real searches), a non-empty well-formed location sequence (adversarial)"
+	c.Rule = "short: every text of <= 5 (thorough: 7) runes over {a, b, space, e-acute (2 bytes), U+4E16 (3 bytes)}, indexed in blocks of 125 documents as a stored, highlightable field with the standard analyzer, as a keyword field and with the CJK analyzer (overlapping bigrams); 16 queries (term a/b/e-acute/U+4E16, phrase \"a b\", match \"a b\", match of four terms, match-all = no locations for the field, keyword prefix queries = one location spanning the whole text, two CJK bigram matches) through TopNSearch.IncludeLocations; every hit x fragment sizes 1..runes+1 and the bundled default x 1..3 fragments x HTML and ANSI, plus BestFragment. replacement: the same over {a, b, space, U+FFFD} up to 5 (6) runes. long: 25 hand-built texts (> 3 x 200 runes, matches at both ends, multi-byte and 4-byte fillers, HTML special characters, U+FFFD, dense matches, runs of overlapping bigrams) x sizes {1,2,3,5,8,13,50,199,200,201,n-1,n,n+1,default}. wide: 6 fillers (a 2-byte, two 3-byte and a 4-byte non-letter rune repeated, and the 2- and 3-byte ones alternating with a space) x texts of about 260 runes with the match a at every rune index 0..70, at 130, 199, 200 and at the end, alone and with a second match at the end x sizes {5,20,30,100,200,default} x HTML/ANSI x BestFragment and BestFragments(1..3), queries term a, match \"a b\" and match-all. adversarial: texts {empty, e-acute, a+e-acute+U+4E16+b} (thorough: also a and U+4E16+a+space+e-acute) x every sequence of <= 3 locations with start,end in {-1,0,1,inside a rune,len-1,len,len+1} (inverted ones included), all under one term in the given order and, when the starts differ, one term each x sizes {1,2,runes+1,default} x HTML/ANSI x 1 and 3 fragments. Every block is presented once per pinned failure class and once for all other failures (evaluated once). non-trivial = the best fragment carries a mark (real searches), a non-empty well-formed location sequence (adversarial)"
 	c.Explanation = "bounded-exhaustive enumeration; the oracle works on the returned strings only: the separators (U+2026 at either end) and the known markup (<mark>..</mark>, ESC[43m..ESC[0m) are removed, HTML is un-escaped; the rest must occur in the stored text as a contiguous piece that starts and ends on rune boundaries and has at most fragment-size runes; at some occurrence every marked span must equal one location of the hit or the union of a run of overlapping locations (sets, no order); the fragments must be placeable pairwise disjoint (the piece may occur several times); at most the requested number; if a location of at most fragment-size runes exists BestFragment must carry a mark; nothing may panic"
 	c.Assumptions = []string{
 		"locations come from TopNSearch.IncludeLocations (AllMatches.IncludeLocations never fills DocumentMatch.Locations: the AllIterator does not call Complete)",
